@@ -19,6 +19,7 @@ import shutil
 import sys
 import tempfile
 import traceback
+import zlib
 
 from core.engine import Property, F
 
@@ -2121,6 +2122,8 @@ def fit_close(real, model):
 
 
 def fit_stage_req(st):
+    if st["m"] == "noise":          # {"m": "noise", "a": [lo, hi, seed]} = noise(context=('i', lo, hi), seed=seed)
+        return {"k": "noise", "lo": st["a"][0], "hi": st["a"][1], "seed": st["a"][2]}
     if st["m"] == "scale":
         shift, scale, _target, using = (st["a"] + [None] * 4)[:4]
         return {"k": "scale", "shift": shift if isinstance(shift, str) else fit_enc(shift), "scale": scale if isinstance(scale, str) else fit_enc(scale),
@@ -2150,6 +2153,8 @@ def fit_build(fc, upto=None):
             FIT_HOLDER[0] = envs         # the pipeline that ends at the holder (shares the holder's pipe object with what follows)
         elif st["m"] == "params":
             envs = envs.params({"p": 1})
+        elif st["m"] == "noise":
+            envs = envs.noise(context=("i", st["a"][0], st["a"][1]), seed=st["a"][2])
         else:
             envs = getattr(envs, st["m"])(*[dv(a) for a in st["a"]])
     return envs, ctxs
@@ -2161,6 +2166,460 @@ FIT_HOLDER = [None]
 def fit_ctx(it):
     c = it["context"]
     return list(c) if isinstance(c, (list, tuple)) else c
+
+
+# ----------------------------------------------------------------------------------------------
+# translator (pre_build): what the model's stage table assumes, read with `ast` from the CURRENT source
+C04_MUTATORS = {"append", "extend", "pop", "clear", "update", "setdefault", "add", "remove", "insert", "popitem", "sort", "reverse", "shuffle",
+                "discard", "appendleft", "popleft", "__setitem__", "send", "close"}
+C04_HOLDERS = {"CobaRandom", "Random", "iter", "zip", "map", "filter", "defaultdict", "count", "cycle", "enumerate", "islice", "chain"}
+C04_SKIP_METHODS = {"__init__", "__setstate__", "__new__", "__getstate__", "__reduce__"}
+
+
+def _c04_selfattr(n):
+    import ast
+    return n.attr if isinstance(n, ast.Attribute) and isinstance(n.value, ast.Name) and n.value.id == "self" else None
+
+
+def _c04_walk_own(node):
+    """the nodes of a method body; nested classes and nested functions with their own `self` are other objects' code"""
+    import ast
+    stack = list(ast.iter_child_nodes(node))
+    while stack:
+        n = stack.pop()
+        if isinstance(n, ast.ClassDef):
+            continue
+        if isinstance(n, (ast.FunctionDef, ast.Lambda)) and any(a.arg == "self" for a in n.args.args):
+            continue
+        yield n
+        stack.extend(ast.iter_child_nodes(n))
+
+
+def c04_state_table(tree):
+    """-> (all class names in source order, [(class, attributes written outside __init__)], [(class, attribute, constructor kept from __init__)])
+    'written' = assigned / augmented / deleted / item-assigned, mutated through a list/dict/set/generator method, advanced with next(),
+    or subscripted when __init__ made it a defaultdict (a look-up that inserts)"""
+    import ast
+    names, written_tab, held_tab = [], [], []
+    for c in tree.body:
+        if not isinstance(c, ast.ClassDef):
+            continue
+        names.append(c.name)
+        held, dd, written = [], set(), set()
+        for m in c.body:
+            if not isinstance(m, ast.FunctionDef):
+                continue
+            if m.name == "__init__":
+                for n in _c04_walk_own(m):
+                    if isinstance(n, ast.Assign) and isinstance(n.value, ast.Call):
+                        f = n.value.func
+                        fn = f.id if isinstance(f, ast.Name) else f.attr if isinstance(f, ast.Attribute) else None
+                        for x in n.targets:
+                            a = _c04_selfattr(x)
+                            if a and fn in C04_HOLDERS:
+                                held.append((a, fn))
+                                if fn == "defaultdict":
+                                    dd.add(a)
+                continue
+            if m.name in C04_SKIP_METHODS:
+                continue
+            for n in _c04_walk_own(m):
+                tg = []
+                if isinstance(n, ast.Assign):
+                    tg = n.targets
+                elif isinstance(n, (ast.AugAssign, ast.AnnAssign, ast.NamedExpr)):
+                    tg = [n.target]
+                elif isinstance(n, ast.Delete):
+                    tg = n.targets
+                for x in tg:
+                    for y in (list(x.elts) if isinstance(x, (ast.Tuple, ast.List)) else [x]):
+                        if _c04_selfattr(y):
+                            written.add(_c04_selfattr(y))
+                        if isinstance(y, ast.Subscript) and _c04_selfattr(y.value):
+                            written.add(_c04_selfattr(y.value))
+                if isinstance(n, ast.Call) and isinstance(n.func, ast.Attribute) and n.func.attr in C04_MUTATORS and _c04_selfattr(n.func.value):
+                    written.add(_c04_selfattr(n.func.value))
+                if isinstance(n, ast.Call) and isinstance(n.func, ast.Name) and n.func.id == "next" and n.args and _c04_selfattr(n.args[0]):
+                    written.add(_c04_selfattr(n.args[0]))
+                if isinstance(n, ast.Subscript) and _c04_selfattr(n.value) in dd:
+                    written.add(_c04_selfattr(n.value))
+        if written:
+            written_tab.append((c.name, sorted(written)))
+        for a, fn in sorted(held):
+            held_tab.append((c.name, a, fn))
+    return names, written_tab, held_tab
+
+
+def _c04_find_class(tree, name):
+    import ast
+    for c in tree.body:
+        if isinstance(c, ast.ClassDef) and c.name == name:
+            return c
+    return None
+
+
+def _c04_find_method(cls, name):
+    import ast
+    for m in (cls.body if cls is not None else []):
+        if isinstance(m, ast.FunctionDef) and m.name == name:
+            return m
+    return None
+
+
+def _c04_callname(call):
+    import ast
+    f = call.func
+    return f.id if isinstance(f, ast.Name) else f.attr if isinstance(f, ast.Attribute) else None
+
+
+def _c04_const(node):
+    import ast
+    return node.value if isinstance(node, ast.Constant) else "?"
+
+
+def _c04_cache_args(call, d_slice, d_prot):
+    """(n_slice, protected) of a `Cache(...)` call, defaults of Cache.__init__ filled in"""
+    vals = {"n_slice": d_slice, "protected": d_prot}
+    for k, a in zip(("n_slice", "protected"), call.args):
+        vals[k] = _c04_const(a)
+    for kw in call.keywords:
+        if kw.arg in vals:
+            vals[kw.arg] = _c04_const(kw.value)
+    return vals["n_slice"], vals["protected"]
+
+
+def _c04_bool_expr(node, var):
+    """the `nocache` predicate as a Lean Bool expression over `isCache` and `prot`; None when it has another shape"""
+    import ast
+    if isinstance(node, ast.BoolOp):
+        parts = [_c04_bool_expr(v, var) for v in node.values]
+        if any(p is None for p in parts):
+            return None
+        return "(" + (" || " if isinstance(node.op, ast.Or) else " && ").join(parts) + ")"
+    if isinstance(node, ast.UnaryOp) and isinstance(node.op, ast.Not):
+        p = _c04_bool_expr(node.operand, var)
+        return None if p is None else "(!" + p + ")"
+    if isinstance(node, ast.Call) and _c04_callname(node) == "isinstance" and len(node.args) == 2 and isinstance(node.args[0], ast.Name) \
+            and node.args[0].id == var and ast.unparse(node.args[1]) in ("pipes.Cache", "Cache"):
+        return "isCache"
+    if isinstance(node, ast.Attribute) and isinstance(node.value, ast.Name) and node.value.id == var and node.attr == "protected":
+        return "prot"
+    if isinstance(node, ast.Constant) and isinstance(node.value, bool):
+        return "true" if node.value else "false"
+    return None
+
+
+def c04_translate(repo):
+    """-> (dict of extracted values, list of names that could not be extracted)"""
+    import ast
+    from fractions import Fraction
+    V, miss = {}, []
+
+    def parse(rel):
+        with open(os.path.join(repo, *rel.split("/")), encoding="utf-8") as f:
+            return ast.parse(f.read())
+
+    def guard(name, fn, default):
+        try:
+            v = fn()
+            if v is None or v == "?" or (isinstance(v, tuple) and "?" in v):
+                raise ValueError(name)
+            V[name] = v
+        except Exception:
+            V[name] = default
+            miss.append(name)
+
+    try:
+        ef, pf, core = parse("coba/environments/filters.py"), parse("coba/pipes/filters.py"), parse("coba/environments/core.py")
+        srcs = [parse("coba/environments/supervised.py"), parse("coba/environments/synthetics.py"), parse("coba/environments/serialized.py")]
+    except Exception:
+        return None, ["source files unreadable"]
+    V["envClasses"], V["envStateful"], V["envHeld"] = c04_state_table(ef)
+    V["pipeClasses"], V["pipeStateful"], V["pipeHeld"] = c04_state_table(pf)
+    V["srcStateful"], V["srcHeld"] = [], []
+    for t in srcs:
+        _, w, h = c04_state_table(t)
+        V["srcStateful"] += w
+        V["srcHeld"] += h
+    pcache = _c04_find_class(pf, "Cache")
+    pinit = _c04_find_method(pcache, "__init__")
+
+    def cache_defaults():
+        args = pinit.args
+        names = [a.arg for a in args.args][1:]
+        defs = [_c04_const(d) for d in args.defaults]
+        d = dict(zip(names[len(names) - len(defs):], defs))
+        return (d["n_slice"], d["protected"])
+    guard("cacheDefaults", cache_defaults, (25, False))
+
+    def cache_init():
+        got = {}
+        for n in ast.walk(pinit):
+            if isinstance(n, ast.Assign) and _c04_selfattr(n.targets[0]) in ("_cache", "_iter"):
+                got[_c04_selfattr(n.targets[0])] = isinstance(n.value, ast.Constant) and n.value.value is None
+        return got["_cache"] and got["_iter"]
+    guard("cacheStartsUnread", cache_init, True)
+    envs = _c04_find_class(core, "Environments")
+    d_slice, d_prot = V["cacheDefaults"]
+
+    def calls_in(method, name):
+        return [n for n in ast.walk(_c04_find_method(envs, method)) if isinstance(n, ast.Call) and _c04_callname(n) == name]
+    guard("shortcutCache", lambda: _c04_cache_args(calls_in("cache", "Cache")[0], d_slice, d_prot), (25, False))
+    guard("materializeCache", lambda: _c04_cache_args(calls_in("materialize", "Cache")[0], d_slice, d_prot), (None, True))
+
+    def nocache():
+        for n in ast.walk(_c04_find_method(envs, "materialize")):
+            if isinstance(n, ast.Assign) and isinstance(n.targets[0], ast.Name) and n.targets[0].id == "nocache" and isinstance(n.value, ast.Lambda):
+                return _c04_bool_expr(n.value.body, n.value.args.args[0].arg)
+    guard("nocache", nocache, "((!isCache) || prot)")
+
+    def mat_skip():
+        for n in ast.walk(_c04_find_method(envs, "materialize")):
+            if isinstance(n, ast.If):
+                return ast.unparse(n.test).replace(" ", "") == "notisinstance(env[-1],pipes.Cache)" and not n.orelse
+    guard("materializeOnlyWhenLastNotCache", mat_skip, True)
+    guard("materializeForcesRead", lambda: any(ast.unparse(n).replace(" ", "") == "list(env.read())" for n in ast.walk(_c04_find_method(envs, "materialize"))), True)
+    guard("materializeFinalizesFirst", lambda: any(ast.unparse(n).replace(" ", "") == "map(self._finalize,self._envs)"
+                                                   for n in ast.walk(_c04_find_method(envs, "materialize"))), True)
+
+    def fin_wrap():
+        m = _c04_find_method(envs, "_finalize")
+        ret = [n for n in ast.walk(m) if isinstance(n, ast.Return)][0].value
+        j = ret.orelse
+        assert isinstance(ret, ast.IfExp) and ast.unparse(ret.body) == "env" and _c04_callname(j) == "join" and ast.unparse(j.args[0]) == "env"
+        out, a = [], j.args[1]
+        while isinstance(a, ast.Call):
+            out.append(_c04_callname(a))
+            a = a.args[0] if a.args else None
+        return out
+    guard("finalizeWrap", fin_wrap, ["BatchSafe", "Finalize"])
+
+    def fin_test():
+        m = _c04_find_method(envs, "_finalize")
+        lam = [n for n in ast.walk(m) if isinstance(n, ast.Lambda)][0]
+        assert isinstance(lam.body, ast.BoolOp) and isinstance(lam.body.op, ast.And)
+        ret = [n for n in ast.walk(m) if isinstance(n, ast.Return)][0].value
+        assert ast.unparse(ret.test).replace(" ", "") == "any(map(is_finalize,env))"
+        return [(ast.unparse(v.args[0]).replace(lam.args.args[0].arg, "e", 1), ast.unparse(v.args[1])) for v in lam.body.values]
+    guard("finalizeTest", fin_test, [("e", "BatchSafe"), ("e._filter", "Finalize")])
+
+    def chunk_info():
+        m = _c04_find_method(envs, "chunk")
+        dflt = _c04_const(m.args.defaults[0])
+        ret = [n for n in ast.walk(m) if isinstance(n, ast.Return)][0].value
+        assert ast.unparse(ret).replace(" ", "") == "envs.cache()ifcacheelseenvs"
+        joined = [_c04_callname(n.args[1]) for n in ast.walk(m) if isinstance(n, ast.Call) and _c04_callname(n) == "join"]
+        return (dflt, joined[0])
+    guard("chunk", chunk_info, (True, "Chunk"))
+
+    def chunk_identity():
+        m = _c04_find_method(_c04_find_class(ef, "Chunk"), "filter")
+        body = [s for s in m.body if not (isinstance(s, ast.Expr) and isinstance(s.value, ast.Constant))]
+        return len(body) == 1 and isinstance(body[0], ast.Return) and ast.unparse(body[0].value) == m.args.args[1].arg
+    guard("chunkIsIdentity", chunk_identity, True)
+
+    def empty_init():
+        m = _c04_find_method(_c04_find_class(ef, "EmptyCheck"), "__init__")
+        for n in ast.walk(m):
+            if isinstance(n, ast.Assign) and _c04_selfattr(n.targets[0]) == "_isempty":
+                return {None: "none", True: "some true", False: "some false"}[n.value.value]
+    guard("emptyCheckInit", empty_init, "none")
+
+    def fin_holds():
+        m = _c04_find_method(_c04_find_class(ef, "Finalize"), "__init__")
+        return [_c04_callname(n.value) for n in ast.walk(m) if isinstance(n, ast.Assign) and _c04_selfattr(n.targets[0]) and isinstance(n.value, ast.Call)]
+    guard("finalizeHolds", fin_holds, ["EmptyCheck"])
+
+    def env_cache_copies():
+        m = _c04_find_method(_c04_find_class(ef, "Cache"), "filter")
+        if m is None:
+            return False
+        return "methodcaller('copy')" in ast.unparse(m) or ".copy()" in ast.unparse(m)
+    guard("envCacheCopies", env_cache_copies, True)
+
+    def shuffle_logged():
+        m = _c04_find_method(_c04_find_class(ef, "Shuffle"), "filter")
+        fac = [n.right.value for n in ast.walk(m) if isinstance(n, ast.BinOp) and isinstance(n.op, ast.Mult) and _c04_selfattr(n.left) == "_seed"
+               and isinstance(n.right, ast.Constant)]
+        keys = []
+        for n in ast.walk(m):
+            if isinstance(n, ast.If) and isinstance(n.test, ast.BoolOp) and isinstance(n.test.op, ast.And):
+                keys = [v.left.value for v in n.test.values if isinstance(v, ast.Compare) and isinstance(v.ops[0], ast.In) and isinstance(v.left, ast.Constant)]
+        fr = Fraction(repr(fac[0]))
+        return (fr.numerator, fr.denominator, keys)
+    guard("shuffleLogged", shuffle_logged, (321, 100, ["action", "reward"]))
+
+    def batchsafe():
+        m = _c04_find_method(_c04_find_class(ef, "BatchSafe"), "filter")
+        j = [n for n in ast.walk(m) if isinstance(n, ast.Call) and _c04_callname(n) == "join"][0]
+        return [(_c04_callname(a) if isinstance(a, ast.Call) else ast.unparse(a)) for a in j.args]
+    guard("batchSafeJoin", batchsafe, ["Unbatch", "self._filter", "Batch"])
+
+    def save_batches():
+        ser = srcs[2]
+        m = _c04_find_method(_c04_find_class(ser, "EnvironmentsToObjects"), "_env_to_objects")
+        return [n.args[1].value for n in ast.walk(m) if isinstance(n, ast.Call) and _c04_callname(n) == "islice" and len(n.args) == 2]
+    guard("saveBatchSizes", save_batches, [1000, 1000])
+    return V, miss
+
+
+def c04_generated_text(V, miss):
+    def s(x):
+        return json.dumps(x, ensure_ascii=True)
+
+    def strs(xs):
+        return "[" + ", ".join(s(x) for x in xs) + "]"
+
+    def tab(rows):
+        return "[" + ", ".join("(%s, %s)" % (s(c), strs(a)) for c, a in rows) + "]"
+
+    def held(rows):
+        return "[" + ", ".join("(%s, %s, %s)" % (s(c), s(a), s(f)) for c, a, f in rows) + "]"
+
+    def onat(x):
+        return "none" if x is None else "some %d" % int(x)
+
+    def b(x):
+        return "true" if x else "false"
+    L = ["-- GENERATED by harness/props/c04.py (pre_build, Python `ast`) from coba/environments/filters.py, coba/pipes/filters.py,",
+         "-- coba/environments/core.py, supervised.py, synthetics.py, serialized.py on every run; do not edit.",
+         "namespace Coba.C04.Generated",
+         "/-- every class of coba/environments/filters.py, in source order -/",
+         "def envClasses : List String := " + strs(V["envClasses"]),
+         "/-- classes of coba/environments/filters.py that write instance attributes outside `__init__` (assignment, item assignment, mutating",
+         "method, `next`, inserting look-up in a defaultdict), with the attributes: the per-object state that survives between two reads -/",
+         "def envStateful : List (String × List String) := " + tab(V["envStateful"]),
+         "/-- (class, attribute, constructor): generators / iterators / defaultdicts created in `__init__` and kept in the instance -/",
+         "def envHeld : List (String × String × String) := " + held(V["envHeld"]),
+         "/-- the same two tables for coba/pipes/filters.py -/",
+         "def pipeStateful : List (String × List String) := " + tab(V["pipeStateful"]),
+         "def pipeHeld : List (String × String × String) := " + held(V["pipeHeld"]),
+         "/-- … and for the environment classes of supervised.py, synthetics.py, serialized.py -/",
+         "def srcStateful : List (String × List String) := " + tab(V["srcStateful"]),
+         "def srcHeld : List (String × String × String) := " + held(V["srcHeld"]),
+         "/-- `pipes.Cache.__init__(self, n_slice=…, protected=…)` -/",
+         "def cacheDefaultSlice : Option Nat := " + onat(V["cacheDefaults"][0]),
+         "def cacheDefaultProtected : Bool := " + b(V["cacheDefaults"][1]),
+         "/-- `__init__` sets `_cache = None` and `_iter = None` -/",
+         "def cacheStartsUnread : Bool := " + b(V["cacheStartsUnread"]),
+         "/-- the `Cache(...)` that `Environments.cache()` appends -/",
+         "def shortcutCacheSlice : Option Nat := " + onat(V["shortcutCache"][0]),
+         "def shortcutCacheProtected : Bool := " + b(V["shortcutCache"][1]),
+         "/-- the `pipes.Cache(...)` that `Environments.materialize()` appends -/",
+         "def materializeCacheSlice : Option Nat := " + onat(V["materializeCache"][0]),
+         "def materializeCacheProtected : Bool := " + b(V["materializeCache"][1]),
+         "/-- `nocache = lambda p: …` of `materialize()`, over `isCache := isinstance(p, pipes.Cache)` and `prot := p.protected` -/",
+         "def nocache (isCache prot : Bool) : Bool := " + V["nocache"],
+         "/-- `if not isinstance(env[-1], pipes.Cache):` without else; `list(env.read())` inside; `map(self._finalize, self._envs)` -/",
+         "def materializeOnlyWhenLastNotCache : Bool := " + b(V["materializeOnlyWhenLastNotCache"]),
+         "def materializeForcesRead : Bool := " + b(V["materializeForcesRead"]),
+         "def materializeFinalizesFirst : Bool := " + b(V["materializeFinalizesFirst"]),
+         "/-- `_finalize`: `env if any(map(is_finalize, env)) else Pipes.join(env, <wrap>)`; `is_finalize` = conjunction of isinstance tests -/",
+         "def finalizeWrap : List String := " + strs(V["finalizeWrap"]),
+         "def finalizeTest : List (String × String) := [" + ", ".join("(%s, %s)" % (s(a), s(c)) for a, c in V["finalizeTest"]) + "]",
+         "/-- `chunk(self, cache=…)` joins this class and returns `envs.cache() if cache else envs`; `Chunk.filter` returns its argument -/",
+         "def chunkCacheDefault : Bool := " + b(V["chunk"][0]),
+         "def chunkJoins : String := " + s(V["chunk"][1]),
+         "def chunkIsIdentity : Bool := " + b(V["chunkIsIdentity"]),
+         "/-- `EmptyCheck.__init__`: `_isempty = …`; the objects `Finalize.__init__` creates and keeps -/",
+         "def emptyCheckInit : Option Bool := " + V["emptyCheckInit"],
+         "def finalizeHolds : List String := " + strs(V["finalizeHolds"]),
+         "/-- `environments.Cache.filter` hands out copies -/",
+         "def envCacheCopies : Bool := " + b(V["envCacheCopies"]),
+         "/-- `Shuffle.filter`: `self._seed * <num/den>` when all of these keys are in the first interaction -/",
+         "def shuffleLoggedFactor : Nat × Nat := (%d, %d)" % (V["shuffleLogged"][0], V["shuffleLogged"][1]),
+         "def shuffleLoggedKeys : List String := " + strs(V["shuffleLogged"][2]),
+         "/-- `BatchSafe.filter`: `Pipes.join(…)` around the wrapped filter for batched input -/",
+         "def batchSafeJoin : List String := " + strs(V["batchSafeJoin"]),
+         "/-- `islice(I, n)` sizes in `EnvironmentsToObjects._env_to_objects` (first batch, later batches) -/",
+         "def saveBatchSizes : List Nat := [" + ", ".join(str(int(x)) for x in V["saveBatchSizes"]) + "]",
+         "def extracted : Bool := " + b(not miss),
+         "end Coba.C04.Generated", ""]
+    return "\n".join(L)
+
+
+# ----------------------------------------------------------------------------------------------
+# (A) for the stage table: which attributes of the pipe objects of a fresh pipeline really change between reads
+def state_canon(v, depth=0):
+    """canonical form of an attribute value (values, not addresses; iterators / generators by identity; generators of coba.random by state)"""
+    if v is None or isinstance(v, (bool, int, float, str, bytes)):
+        return repr(v)
+    if depth > 5:
+        return "<deep>"
+    if isinstance(v, (list, tuple)):
+        return [type(v).__name__, len(v)] + [state_canon(x, depth + 1) for x in v[:30]]
+    if isinstance(v, dict):
+        return ["dict", len(v)] + [[state_canon(k, depth + 1), state_canon(x, depth + 1)] for k, x in list(v.items())[:30]]
+    if isinstance(v, (set, frozenset)):
+        return ["set", sorted(repr(x) for x in v)[:30]]
+    if hasattr(v, "__next__"):
+        return ["iter", type(v).__name__, id(v)]
+    if (type(v).__module__ or "").startswith("coba.random"):
+        return ["rng", state_canon(dict(getattr(v, "__dict__", {})), depth + 1)]
+    return ["obj", type(v).__name__]
+
+
+def state_snapshot(pipes):
+    """{(position, class names of the owning object, attribute): canonical value} over the pipes of a pipeline and the coba filter
+    objects nested in them (BatchSafe._filter, Finalize._emptycheker, …)"""
+    snap = {}
+
+    def visit(o, path, depth):
+        d = getattr(o, "__dict__", None)
+        if not isinstance(d, dict):
+            return
+        mro = tuple(c.__name__ for c in type(o).__mro__ if c is not object)
+        for a, v in list(d.items()):
+            if depth < 4 and (type(v).__module__ or "") in ("coba.environments.filters", "coba.pipes.filters") and hasattr(v, "__dict__"):
+                visit(v, path + "." + a, depth + 1)
+            else:
+                try:
+                    snap[(path, mro, a)] = cjson(state_canon(v))
+                except Exception:
+                    snap[(path, mro, a)] = "<uncanonical>"
+    for i, q in enumerate(pipes):
+        visit(q, str(i), 0)
+    return snap
+
+
+def state_observe(case, tmp):
+    """fresh pipeline: snapshot, abandoned read, full read, full read -> sorted [(class names, attribute)] that differ between any two
+    snapshots, or None when the pipeline cannot be read"""
+    envs, _ = build(case, tmp)
+    env = envs[member_of(case)]
+    pipes = list(env)
+    snaps = [state_snapshot(pipes)]
+    try:
+        it = iter(env.read())
+        next(it, None)
+        del it
+        gc.collect()
+        snaps.append(state_snapshot(pipes))
+        list(env.read())
+        snaps.append(state_snapshot(pipes))
+        list(env.read())
+        snaps.append(state_snapshot(pipes))
+    except BaseException as e:
+        if not trappable(e):
+            raise
+        return None, None
+    changed = set()
+    for a, b in zip(snaps, snaps[1:]):
+        for k in set(a) | set(b):
+            if a.get(k) != b.get(k):
+                changed.add((k[1], k[2]))
+    consts = None
+    try:
+        from coba.environments import Environments
+        import coba.pipes as cp
+        c = [q for q in Environments(env).cache()[0] if isinstance(q, cp.Cache)][-1]
+        ch = list(Environments(env).chunk()[0])
+        consts = {"shortcutCache": {"sz": c._n_slice, "prot": bool(c.protected), "unread": c._cache is None and c._iter is None},
+                  "chunk": [type(q).__name__ for q in ch[len(pipes):]][:2]}
+    except BaseException as e:
+        if not trappable(e):
+            raise
+    return sorted(changed), consts
 
 
 class C04(Property):
@@ -2196,6 +2655,11 @@ class C04(Property):
         "stateless filters as their input->output table on the reference input (both taken from the code, stage by stage through the public pipes)",
         "the fields those filters look at (logged?, context as exact rationals / code points, number of actions) are extracted from the real interactions by the harness",
         "GroundedFeedback words are predicted by the memo model from CobaRandom(seed).choice (Model/C05); a GroundedFeedback is built directly from the public nested class",
+        "translator (pre_build): Generated/C04Stages.lean is extracted with Python's ast from the current coba/environments/filters.py, coba/pipes/filters.py, "
+        "coba/environments/core.py, supervised.py, synthetics.py, serialized.py (attributes written outside __init__ per class, generators kept from __init__, Cache / "
+        "materialize / chunk / _finalize / save constants, the nocache predicate); which attributes really change between reads is also observed on the pipe objects "
+        "of fresh pipelines (private attribute names, values canonicalised) and checked against the Lean stageTable through the driver",
+        "Noise(context=('i',lo,hi), seed) is a REAL function in the fitting-window family (draws of CobaRandom(seed).randint through Model/C05); gaussian noise is not modelled",
         "pickle / zip I/O produce observationally equal, unshared copies",
         "CPython drops (closes) an abandoned generator as soon as its last reference disappears",
     ]
@@ -2231,6 +2695,48 @@ class C04(Property):
         q = [[i, a] for i in range(ni) for a in range(nact)]
         reads = [q, q] if rng.chance(0.5) else [q, rng.shuffle(q)[:max(1, len(q) // 2)], q]
         return {"memo": {"ngood": rng.randint(1, 3), "nbad": rng.randint(1, 4), "insts": insts, "reads": reads}}
+
+    def pre_build(self):
+        """translator step: per-object state of the filter classes, Cache / materialize / _finalize / chunk / save constants and the
+        `nocache` predicate, read with `ast` from the CURRENT source -> lean/CobaVerif/Generated/C04Stages.lean"""
+        from core import lean
+        repo = os.environ.get("COBA_REPO", "/repo")
+        V, miss = c04_translate(repo)
+        path = os.path.join(lean.LEAN_DIR, "CobaVerif", "Generated", "C04Stages.lean")
+        if V is None:
+            return ["C04 stage table: source files unreadable, generated file left as it is"]
+        body = c04_generated_text(V, miss)
+        old = open(path, encoding="utf-8").read() if os.path.exists(path) else None
+        if old != body:
+            os.makedirs(os.path.dirname(path), exist_ok=True)
+            with open(path, "w", encoding="utf-8") as f:
+                f.write(body)
+        return ["C04 stage table from source: stateful env %s, pipes %s, sources %s; held %s; cache() %s, materialize() %s, save batches %s%s"
+                % (V["envStateful"], V["pipeStateful"], V["srcStateful"], V["envHeld"] + V["pipeHeld"] + V["srcHeld"], V["shortcutCache"],
+                   V["materializeCache"], V["saveBatchSizes"], "" if not miss else " (NOT extracted: %s — source reshaped)" % ", ".join(miss))]
+
+    def state_tie(self, case, fails, tags, driver, tmp):
+        """(A) for the stage table: every attribute of a pipe object that changes between reads of a fresh pipeline must be allowed by the
+        model's `stageTable` (asked from the driver), and the Cache that cache() appends must be the model's `shortcutCacheNode`"""
+        changed, consts = state_observe(case, tmp)
+        if changed is None:
+            tags.append("state-check:unreadable")
+            return
+        ans = driver.ask({"stages": {"obs": [[list(m), a] for m, a in changed]}})
+        tags.append("state-check")
+        for (m, a), ok in zip(changed, ans["allowed"]):
+            if ok:
+                tags.append("state:%s.%s" % (m[0], a))
+            else:
+                fails.append(F("A", "an instance of %s changed its attribute %r between reads of one pipeline object (fresh pipeline: abandoned read, "
+                                    "full read, full read), but the model's stage table lists no such per-object state" % (m[0], a),
+                               "A:stage-table:unlisted:%s.%s" % (m[0], a)))
+        if consts is not None:
+            want = dict(ans["shortcutCache"])
+            if consts["shortcutCache"] != want:
+                fails.append(F("A", "Environments.cache() appended a Cache with %s, the model's step appends %s" % (consts["shortcutCache"], want), "A:stage-table:cache-shortcut"))
+            if consts["chunk"] != ["Chunk", "Cache"]:
+                fails.append(F("A", "Environments.chunk() appended %s, the model's step appends Chunk, Cache" % consts["chunk"], "A:stage-table:chunk-shortcut"))
 
     def generate(self, rng, tier):
         if rng.chance(0.03):
@@ -2507,6 +3013,20 @@ class C04(Property):
             cs.append({"fit": {"ctxs": fnone, "chain": hold + [{"m": "impute", "a": ["mean", True, 3]}, {"m": "scale", "a": [1, 2, "context", 2]}, {"m": "params"}, {"m": "scale", "a": ["min", "minmax", "context", None]}], "hist": fh}})
             cs.append({"fit": {"ctxs": fctx, "chain": hold + [{"m": "scale", "a": [1, 2, "context", 2]}, {"m": "take", "a": [4]}], "hist": fh}})
             cs.append({"fit": {"ctxs": fctx, "chain": hold + [{"m": "params"}, {"m": "take", "a": [3]}], "hist": fh}})
+            # phase 5: Noise on content, draws of CobaRandom(seed).randint through Model/C05
+            for nz in ([0, 9, 1], [-3, 3, 0], [1, 1, 7], [-20, 50, 12345]):
+                cs.append({"fit": {"ctxs": fnone, "chain": hold + [{"m": "noise", "a": nz}], "hist": fh}})
+            cs.append({"fit": {"ctxs": fnone, "chain": hold + [{"m": "noise", "a": [0, 9, 3]}, {"m": "impute", "a": ["mean", True, 3]}, {"m": "scale", "a": [1, 2, "context", 2]}], "hist": fh}})
+            cs.append({"fit": {"ctxs": fctx, "chain": hold + [{"m": "scale", "a": ["min", "minmax", "context", 2]}, {"m": "noise", "a": [-3, 3, 5]}, {"m": "noise", "a": [0, 1, 5]}, {"m": "take", "a": [4]}], "hist": fh}})
+            # phase 5: scalar and sparse contexts through Scale / Impute, predicted by Model/C11 (`kind` scalar / sparse)
+            fscal, fscaln = [1, 3.5, -4, 8, 0.5, 2.25], [1, None, -4, 8, None, 2.25]
+            fsp = [{"d": [["a", 1], ["b", 3.5]]}, {"d": [["a", 2]]}, {"d": [["b", -4], ["c", 1]]}, {"d": [["a", 8], ["b", 6]]}, {"d": [["c", 2.25]]}, {"d": [["a", 0.5], ["b", 7]]}]
+            for sc in (["min", "minmax", "context", None], [1, 2, "context", None], ["mean", "std", "context", 3], ["med", "iqr", "context", 2], [0, "maxabs", "context", 4], [-2, 0.5, "context", 1]):
+                cs.append({"fit": {"ctxs": fscal, "chain": hold + [{"m": "scale", "a": sc}], "hist": fh}})
+                if hold != [{"m": "cache"}]:
+                    cs.append({"fit": {"ctxs": fsp, "chain": hold + [{"m": "scale", "a": sc}], "hist": fh}})
+            for im in (["mean", True, None], ["median", False, 3], ["mode", True, 2], ["mean", False, None]):
+                cs.append({"fit": {"ctxs": fscaln, "chain": hold + [{"m": "impute", "a": im}], "hist": fh}})
         # empty environments (EmptyCheck), densify lookup
         cs.append({"src": dict(lin, n=0), "chain": [], "hist": [full, full, par, {"op": "materialize", "on": 0}, {"op": "full", "on": 1}]})
         cs.append({"src": lin, "chain": [{"m": "take", "a": [0, False]}], "hist": [full, part(1), full]})
@@ -2576,7 +3096,23 @@ class C04(Property):
         for _ in range(rng.randint(2, 5)):
             hist.append({"op": "full"} if rng.chance(0.5) else {"op": "partial", "k": rng.choice([0, 1, 2, 3, n - 1, n, n + 1])})
         hist.append({"op": "full"})
-        return {"fit": {"ctxs": ctxs, "chain": chain, "hist": [h if h.get("k", 0) >= 0 else {"op": "partial", "k": 0} for h in hist]}}
+        case = {"fit": {"ctxs": ctxs, "chain": chain, "hist": [h if h.get("k", 0) >= 0 else {"op": "partial", "k": 0} for h in hist]}}
+        # phase 5: in 2 of 5 cases a Noise(context=('i', lo, hi), seed) stage; where and with what is a function of the case (crc32), so
+        # the random stream of all other cases is what it was
+        hsh = zlib.crc32(cjson(case).encode("utf-8"))
+        if hsh % 5 < 2:
+            lo, hi = [(0, 9), (-3, 3), (1, 1), (-20, 50), (0, 1), (5, 2)][(hsh >> 4) % 6]
+            seed = [1, 0, 7, 3, 12345, -2, 2 ** 30 + 5][(hsh >> 8) % 7]
+            first = 1 if chain and chain[0]["m"] in ("cache", "materialize") else 0
+            last = len(chain) - (1 if chain and chain[-1]["m"] == "take" else 0)
+            chain.insert(first + (hsh >> 12) % (last - first + 1), {"m": "noise", "a": [lo, hi, seed]})
+        elif (hsh >> 16) % 3 == 0:
+            # … and in a third of the others scalar contexts (first column), or — without Impute, which does not take them — sparse ones
+            if (hsh >> 20) % 2 == 0 or impute:
+                case["fit"]["ctxs"] = [c[0] for c in ctxs]
+            else:
+                case["fit"]["ctxs"] = [{"d": [["k%d" % j, v] for j, v in enumerate(c) if (i + j) % 3 != 2 or j == 0]} for i, c in enumerate(ctxs)]
+        return case
 
     def fit_case(self, case, driver):
         """a from_lambda environment over caller-owned dense contexts -> [cache|materialize] -> Scale / Impute stages [-> params / take]:
@@ -2586,7 +3122,7 @@ class C04(Property):
         quiet()
         fc = case["fit"]
         chain = fc["chain"]
-        fails, tags = [], ["fit-case", "fit-stages:%d" % sum(1 for st in chain if st["m"] in ("scale", "impute"))]
+        fails, tags = [], ["fit-case", "fit-stages:%d" % sum(1 for st in chain if st["m"] in ("scale", "impute", "noise"))]
         tags += ["fit:" + st["m"] for st in chain]
         try:
             ref = [cint(i) for i in fit_build(fc)[0][0].read()]
@@ -2632,16 +3168,25 @@ class C04(Property):
         # the objects a holder hands out, by identity: unchanged by reads of the whole pipeline
         hold = max([i for i, st in enumerate(chain) if st["m"] in ("cache", "materialize")], default=None)
         pattern = None
+        fpatterns = {}          # phase 5: identities of the interaction dicts and of the reward objects
         if hold is not None and refctx:
             envs2, _ = fit_build(fc)
             henv, hpipe = envs2[0], FIT_HOLDER[0]
             try:
-                held = [i["context"] for i in hpipe[0].read()]
-                held2 = [i["context"] for i in hpipe[0].read()]
+                hI, hI2 = list(hpipe[0].read()), list(hpipe[0].read())
+                held = [i["context"] for i in hI]
+                held2 = [i["context"] for i in hI2]
                 if len(held) == len(held2) and all(a is b for a, b in zip(held, held2)) and all(isinstance(c, list) for c in held):
                     snap = cjson(cv(held))
-                    out1 = [i["context"] for i in henv.read()]
-                    out2 = [i["context"] for i in henv.read()]
+                    full1, full2 = list(henv.read()), list(henv.read())
+                    out1 = [i["context"] for i in full1]
+                    out2 = [i["context"] for i in full2]
+                    for fld, get in (("dict", lambda x: x), ("rewards", lambda x: x.get("rewards"))):
+                        h1, h2 = [get(x) for x in hI], [get(x) for x in hI2]
+                        # only when the holder hands out the SAME, pairwise distinct objects on every read (cache() copies the dicts: skipped there)
+                        if len(h1) == len(h2) and all(a is b for a, b in zip(h1, h2)) and len({id(a) for a in h1}) == len(h1) and all(a is not None for a in h1):
+                            fids = {id(c): j for j, c in enumerate(h1)}
+                            fpatterns[fld] = [[fids.get(id(get(x))) for x in out] for out in (full1, full2)]
                     if cjson(cv(held)) != snap:
                         fails.append(F("B", "reading the pipeline %s changed the contexts held by %s(): %s -> %s" % ([st["m"] for st in chain], chain[hold]["m"], snap[:100], cjson(cv(held))[:100]),
                                        "held-data-modified:fit:" + chain[hold]["m"]))
@@ -2656,32 +3201,62 @@ class C04(Property):
                 tags.append("alias-id:not-run:" + errname(e))
         model = None
         if driver is not None and not fails:
-            stages = [st for st in chain if st["m"] in ("scale", "impute")]
+            stages = [st for st in chain if st["m"] in ("scale", "impute", "noise")]
             take = [st["a"][0] for st in chain if st["m"] == "take"]
             dense = all(isinstance(c, list) for c in ctxs)
-            if dense and (not take or chain[-1]["m"] == "take"):
-                req = {"fit": {"kind": "dense", "rows": [[fit_enc(v) for v in c] for c in ctxs], "stages": [fit_stage_req(st) for st in stages],
+            sparse = bool(ctxs) and all(isinstance(c, dict) for c in ctxs)
+            scalar = bool(ctxs) and all(c is None or (isinstance(c, (int, float)) and not isinstance(c, bool)) for c in ctxs)
+            # Noise is modelled on dense rows only (`mapCtxs`)
+            if (dense or ((sparse or scalar) and not any(st["m"] == "noise" for st in stages))) and (not take or chain[-1]["m"] == "take"):
+                kind = "dense" if dense else "sparse" if sparse else "scalar"
+                rows_req = ([[fit_enc(v) for v in c] for c in ctxs] if dense else [[[str(k), fit_enc(v)] for k, v in c.items()] for c in ctxs] if sparse
+                            else [fit_enc(c) for c in ctxs])
+                req = {"fit": {"kind": kind, "rows": rows_req, "stages": [fit_stage_req(st) for st in stages],
                                "reads": ["all" if h["op"] == "full" else h["k"] for h in fc["hist"]]}}
                 model = driver.ask(req)
+                tags.append("fit-kind:" + kind)
+
+                def same_row(r, m, mk):
+                    if mk == "dense":          # (a scalar context with an Impute indicator becomes the list [value, indicator])
+                        return isinstance(r, list) and len(r) == len(m) and all(fit_close(x, y) for x, y in zip(r, m))
+                    if mk == "scalar":
+                        return not isinstance(r, (list, dict)) and fit_close(r, m)
+                    md = {k: v for k, v in m}
+                    return isinstance(r, dict) and sorted(str(k) for k in r) == sorted(md) and all(fit_close(v, md[str(k)]) for k, v in r.items())
                 for n_op, (h, real, mod) in enumerate(zip(fc["hist"], reads, model["reads"])):
                     rows = mod["rows"][:take[0]] if take else mod["rows"]
-                    ok = len(rows) == len(real) and all(isinstance(r, list) and len(r) == len(m) and all(fit_close(x, y) for x, y in zip(r, m)) for r, m in zip(real, rows))
+                    ok = len(rows) == len(real) and all(same_row(r, m, mod.get("kind", kind)) for r, m in zip(real, rows))
                     if not ok:
                         fails.append(F("A", "read %d (%s): the contexts delivered through %s differ from Model/C11's prediction: real %s, model %s"
-                                       % (n_op, h["op"], [st["m"] + str(st.get("a", "")) for st in chain], str(real)[:160], str([[None if v is None else v[0] / v[1] for v in r] for r in rows])[:160]), "A:fit-content"))
+                                       % (n_op, h["op"], [st["m"] + str(st.get("a", "")) for st in chain], str(real)[:160], str(rows)[:200]), "A:fit-content" + ("" if kind == "dense" else ":" + kind)))
                         break
                 else:
                     tags.append("A:fit-content-model")
+                    if any(st["m"] == "noise" for st in stages):
+                        tags.append("A:noise-on-content-model")
             if pattern is not None and hold is not None:
                 st_req = ["share"]
                 for st in chain[hold + 1:]:
-                    st_req.append("alloc" if st["m"] in ("scale", "impute") else {"take": st["a"][0]} if st["m"] == "take" else "share")
+                    st_req.append("alloc" if st["m"] in ("scale", "impute", "noise") else {"take": st["a"][0]} if st["m"] == "take" else "share")
                 ans = driver.ask({"galias": {"n": len(ctxs), "stages": st_req}})
                 if [ans["pattern1"], ans["pattern2"]] != pattern or not ans["heldUnchanged"]:
                     fails.append(F("A", "object identities: through %s the delivered contexts are held objects / new objects %s (two reads), the aliasing model says %s"
                                    % ([st["m"] for st in chain], pattern, [ans["pattern1"], ans["pattern2"]]), "A:alias-identities"))
                 else:
                     tags.append("A:alias-identities-model")
+            if hold is not None:
+                # the same aliasing model for the interaction dicts (every rewriting filter works on `interaction.copy()`: alloc; Params hands the dict on) and for the
+                # reward objects (Scale / Impute / Params hand them on: share; Noise builds new ones: alloc); take = pick of the first k
+                kinds = {"dict": {"scale": "alloc", "impute": "alloc", "noise": "alloc", "params": "share"},
+                         "rewards": {"scale": "share", "impute": "share", "noise": "alloc", "params": "share"}}
+                for fld, pat in sorted(fpatterns.items()):
+                    st_req = ["share"] + [({"take": st["a"][0]} if st["m"] == "take" else kinds[fld][st["m"]]) for st in chain[hold + 1:]]
+                    ans = driver.ask({"galias": {"n": len(ctxs), "stages": st_req}})
+                    if [ans["pattern1"], ans["pattern2"]] != pat:
+                        fails.append(F("A", "object identities of the %s: through %s the delivered objects are held objects / new objects %s (two reads), the aliasing model says %s"
+                                       % ("interaction dicts" if fld == "dict" else "reward objects", [st["m"] for st in chain], pat, [ans["pattern1"], ans["pattern2"]]), "A:alias-identities:" + fld))
+                    else:
+                        tags.append("A:alias-identities-%s-model" % fld)
         nontrivial = len(ref) > 0 and any(h["op"] == "partial" for h in fc["hist"][:-1]) or len(fc["hist"]) >= 2 and len(ref) > 0
         return {"fails": fails, "nontrivial": nontrivial, "tags": tags, "impl": {"reads": [str(r)[:80] for r in reads]}, "model": model and {"pulled": model.get("pulled")}}
 
@@ -2765,6 +3340,8 @@ class C04(Property):
                     self.alias_tie(case, info, fails, tags, driver)
                 if case.get("chain") and case["chain"][-1]["m"] == "grounded" and info["ref_len"] > 0:
                     self.grounded_pipeline(case, fails, tags, driver, tmp)
+                if zlib.crc32(cjson(case).encode("utf-8")) % 3 == 0:       # a fixed third of the cases (a function of the case, not of the stream)
+                    self.state_tie(case, fails, tags, driver, tmp)
             except BaseException as e:
                 if not trappable(e):
                     raise
